@@ -510,6 +510,9 @@ CALL_VARIANTS = [
     ('implicify_hydrogens', {}), ('explicify_hydrogens', {}), ('fix_structure', {}),
     ('explicify_hydrogens', {'start_map': ['max', 1]}), ('explicify_hydrogens', {'start_map': ['max', 4]}),
     ('remove_acids', {}), ('split_metal_salts', {}), ('split_metal_salts', {'logging': True}), ('remove_metals', {'logging': True}),
+    ('standardize', {'ignore': False}), ('canonicalize', {'ignore': False}), ('explicify_hydrogens', {'_return_map': True, '_fix_stereo': False}),
+    ('implicify_hydrogens', {'logging': True, '_fix_stereo': False}), ('standardize_charges', {'_fix_stereo': False}),
+    ('remove_coordinate_bonds', {'_fix_stereo': False}), ('fix_resonance', {'logging': True, '_fix_stereo': False}),
 ]
 # public generators of new molecules: every molecule they yield is judged like any other result
 ENUMERATORS = [('enumerate_kekule', {}), ('enumerate_tautomers', {'limit': 6}), ('enumerate_tautomers', {'limit': 6, 'prepare_molecules': False}),
@@ -549,6 +552,22 @@ def do_edit(m, e, state, **kw):
         m.atom(ref(e[1])).is_radical = bool(e[2])
     else:
         raise ValueError(f'unknown edit {e}')
+
+
+def total_hydrogens_bad(m):
+    """atoms whose `total_hydrogens` is not stored count + hydrogen neighbours over non-coordinate bonds (None mark: must raise)"""
+    from chython.exceptions import ValenceError
+    bad = []
+    for n, a in m._atoms.items():
+        exp = None if a._implicit_hydrogens is None else \
+            a._implicit_hydrogens + sum(1 for k, b in m._bonds[n].items() if b.order != 8 and m._atoms[k].atomic_number == 1)
+        try:
+            got = a.total_hydrogens
+        except ValenceError:
+            got = None
+        if got != exp:
+            bad.append((n, a.atomic_symbol, got, exp))
+    return bad
 
 
 def read_aggregates(m):
@@ -642,6 +661,11 @@ def apply_history(src, ops):
                 nxt.append(m | molgen.parse(op[1]))
             elif k == 'copy':
                 nxt.append(m.copy())
+            elif k == 'pack':   # serialise and read back (the stored counts travel in the pack)
+                from ..gen import pyx2py
+                pyx2py.install()
+                kw = {} if op[1] else {'compressed': False}
+                nxt.append(type(m).unpack(m.pack(**kw), **kw) if op[2] == 'pack' else type(m).unpach(m.pach(**kw), **kw))
             elif k == 'transaction':
                 with m:
                     for e in op[1]:
@@ -1188,13 +1212,15 @@ def history_cases(ctx):
             cases.append((name, m, ops))
         for _ in range(reps):   # cutting: substructure / & / - / augmented / split / union
             sel = random_subset(rng, m)
-            kind = rng.choice(['substructure', 'and', 'sub', 'augmented', 'augmenteds', 'split', 'union', 'copy', 'ior', 'union_inplace'])
+            kind = rng.choice(['substructure', 'and', 'sub', 'augmented', 'augmenteds', 'split', 'union', 'copy', 'ior', 'union_inplace', 'pack'])
             if kind in ('substructure', 'and', 'sub'):
                 ops = [[kind, sel]]
             elif kind in ('augmented', 'augmenteds'):
                 ops = [[kind, sel[:2], rng.randint(0, 2)]]
             elif kind == 'union':
                 ops = [['union', rng.choice(['O', 'C[NH3+]', '[Na+]', 'c1ccccc1'])], ['substructure', sel]]
+            elif kind == 'pack':
+                ops = [['pack', rng.random() < 0.7, rng.choice(['pack', 'pach'])]]
             elif kind in ('ior', 'union_inplace'):   # merge in place; numbers colliding (remapped by union) or already disjoint
                 ops = [[kind, rng.choice(['O', 'C[NH3+]', '[Na+]', 'C[CH2] |^1:1|', 'CC(=O)[O-]', '[Cl-]']), rng.choice([0, 1, 5])]]
             else:
@@ -1224,10 +1250,10 @@ _HANDMADE_NAMES = set()
 
 def run_history(src, ops):
     """('ok', results) | (error class, None): library errors and rejected edits are not results to judge"""
-    from chython.exceptions import ValenceError, MappingError, AtomNotFound, InvalidAromaticRing
+    from chython.exceptions import ValenceError, MappingError, AtomNotFound, InvalidAromaticRing, ImplementationError
     try:
         return 'ok', apply_history(src, ops)
-    except (ValenceError, MappingError, AtomNotFound, InvalidAromaticRing) as e:
+    except (ValenceError, MappingError, AtomNotFound, InvalidAromaticRing, ImplementationError) as e:
         return 'lib:' + type(e).__name__, None
     except (KeyError, ValueError, IndexError, TypeError, AttributeError, StopIteration) as e:
         return 'E:' + type(e).__name__, None
@@ -1267,6 +1293,8 @@ def history_stream(ctx):
                 exp[2] = {}
             for what, got, want in aggregates_agree(read_aggregates(r), exp):
                 bad.append((i, 'totals', what, '', str(got)[:120], str(want)[:120], []))
+            for n, sym, got, want in total_hydrogens_bad(r)[:2]:
+                bad.append((i, n, sym, 'total_hydrogens', got, want, []))
         key = (wire.mol_to_line(src), json.dumps(ops))
         ctx.count(('history', key), nontrivial=any(atom_ctx(r, n) != (atom_ctx(src, n) if n in src._atoms else None)
                                                   for r in results for n in r._atoms))
@@ -1300,6 +1328,12 @@ def history_oracle(src, ops, known_gaps=True):
             return [(f'C04/history/{kind}/totals-are-not-the-sums-over-atoms',
                      f'{src} (formula, charge, radical flag and mass read before) after {json.dumps(ops)[:300]} -> {r.copy()}: {what} answers {got}, '
                      f'the atoms give {want}')]
+    for r in results:
+        th = total_hydrogens_bad(r)
+        if th:
+            n, sym, got, want = th[0]
+            return [(f'C04/history/{kind}/total-hydrogens-is-not-implicit-plus-explicit',
+                     f'{src} after {json.dumps(ops)[:300]} -> {r}: atom {n} ({sym}) answers total_hydrogens={got}, stored count + hydrogen neighbours = {want}')]
     bad = judge_history(src, results, calc_of, accepts, ops, known_gaps)
     if not bad:
         return []
